@@ -17,6 +17,7 @@ mod c10;
 mod c11;
 mod c12;
 mod c13;
+mod c14;
 mod c19;
 mod prog;
 
@@ -123,6 +124,7 @@ fn main() {
         "c11" => c11::run(&ctx),
         "c12" => c12::run(&ctx),
         "c13" => c13::run(&ctx),
+        "c14" => c14::run(&ctx),
         "c19" => c19::run(&ctx),
         "c19dump" => c19::dump(&ctx),
         _ => {
